@@ -401,13 +401,14 @@ def replay_history(ctx, hist, finals=()):
     """the history step by step; then - on the state it reached - every final question TLC printed for it"""
     reg = Registry()
     heap = []
+    ok = True
     try:
         for i, ev in enumerate(hist):
             got = perform(ev, heap, reg)
             ctx.evals += 1
-            if not judge_event(ctx, ev, got, hist, i):
+            ok = judge_event(ctx, ev, got, hist, i) and ok      # (the rest of the history is still asked: one defect, all its symptoms)
+            if got.get('cls') == 'DidNotTerminate':
                 return False
-        ok = True
         for ev in finals:
             got = perform(ev, heap, reg)
             ctx.evals += 1
